@@ -1,7 +1,7 @@
 """C09 - storage errors surface as I/O errors (DESIGN.md section 4, rules R9.1 - R9.6)."""
 from analyses import (Effects, contains_dev_result, explore_result_fate, is_log_or_fmt_call)
 from core import vkey
-from model import place_key, op_place
+from model import place_key, op_place, op_const
 
 SKIP_ORIGINS = ('core::ops::try_trait::Try::branch', 'core::ops::try_trait::FromResidual::from_residual',
                 'core::convert::From::from', 'core::convert::Into::into')
@@ -545,3 +545,110 @@ def run(ctx, rep):
     run_refcell(ctx, rep)
     run_indirect_swallow(ctx, rep)
     run_discarding_adaptors(ctx, rep)
+    run_interrupt_predicate(ctx, rep)
+
+
+# ---------------------------------------------------------------------------------------------
+# R9.9  the retry predicate: only "interrupted" is retried, and wrappers delegate
+
+def run_interrupt_predicate(ctx, rep):
+    """`read_exact` / `write_all` retry while `is_interrupted()` is true (fate F3), so the predicate decides which storage
+    errors are swallowed by a retry. (a) `Error<T>::is_interrupted` returns exactly what the wrapped storage error says on
+    its Io variant and false on every other variant; (b) `std::io::Error::is_interrupted` is true for
+    ErrorKind::Interrupted and for nothing else (decision table over the kind's discriminant)."""
+    facts = ctx.facts
+    W = facts.fns.get('<fatfs::error::Error as fatfs::error::IoError>::is_interrupted')
+    if W is None:
+        rep.machinery('ANCHOR-MISSING <Error<T> as IoError>::is_interrupted')
+    else:
+        io_ix = io_variant_index(facts)
+        problems = []
+        delegates = 0
+        # every value that reaches the return place: the delegate's result on the Io arm, constant false elsewhere
+        for bi in W.reachable():
+            t = W.blocks[bi]['term']
+            if t['k'] == 'call' and place_key(t['dest']) == (0, ()):
+                callee = t.get('callee') or ''
+                p = op_place(t['args'][0]) if t['args'] else None
+                if callee.endswith('IoError::is_interrupted') and p is not None:
+                    delegates += 1
+                else:
+                    problems.append('the result is computed by %s' % callee)
+            for s in W.blocks[bi]['stmts']:
+                if s['k'] == 'assign' and place_key(s['lhs']) == (0, ()):
+                    c = _bool_const(W, s['rv']['a']) if s['rv']['k'] == 'use' else None
+                    if c is None:
+                        problems.append('the result is not the wrapped error\'s answer or the constant false')
+                    elif c is True:
+                        problems.append('a constant `true` is returned (an error would be retried for ever)')
+        # the delegate call sits on the Io arm of a switch on self's discriminant
+        on_io = False
+        for bi in W.reachable():
+            t = W.blocks[bi]['term']
+            if t['k'] == 'switch':
+                from analyses import switch_source
+                src = switch_source(W, bi)
+                if src and src['kind'] == 'discr':
+                    tgt = [tb for v, tb in t['targets'] if v == io_ix]
+                    if tgt:
+                        reach = W.reach_from(tgt, cut_blocks=[bi])
+                        if any(W.blocks[x]['term']['k'] == 'call' and (W.blocks[x]['term'].get('callee') or '').endswith(
+                                'IoError::is_interrupted') for x in reach):
+                            on_io = True
+        if delegates == 0 or not on_io:
+            problems.append('the Io variant does not ask the wrapped storage error (a transient storage error is no longer '
+                            'retried, or every error is)')
+        rep.oblige('R9.9', W.name, ok=not problems, nontrivial=True,
+                   sample={'fn': W.name, 'rule': 'Io(e) => e.is_interrupted(), every other variant => false'})
+        if problems:
+            rep.violation('R9.9', vkey('R9.9', W.name, 'delegation', ''), W.loc(W.span),
+                          'Error<T>::is_interrupted does not mirror the wrapped storage error: ' + '; '.join(sorted(set(problems))))
+    S = facts.fns.get('<std::io::error::Error as fatfs::error::IoError>::is_interrupted')
+    REF = next((f for n, f in facts.fns.items() if n.endswith('::control_ref_errorkind_interrupted')), None)
+    if S is None:
+        return  # a build without std
+    if REF is None:
+        rep.machinery('ANCHOR-MISSING witness reference ref_errorkind_interrupted')
+        return
+    want = None
+    for bi in REF.reachable():
+        for s in REF.blocks[bi]['stmts']:
+            if s['k'] == 'assign' and s['rv']['k'] == 'agg' and s['rv'].get('ak') == 'adt' and 'vi' in s['rv']:
+                want = s['rv']['vi']
+            c = op_const(s['rv'].get('a', {})) if s['k'] == 'assign' and s['rv']['k'] == 'use' else None
+            if c is not None and c.get('val') is not None and place_key(s['lhs']) == (0, ()):
+                want = c['val']
+    kinds = [(b, t) for b, t in S.calls() if (t.get('callee') or '').endswith('io::error::Error::kind')]
+    if want is None or len(kinds) != 1:
+        rep.machinery('ANCHOR std::io::Error::is_interrupted: kind() call / reference discriminant not found')
+        return
+    from decision import decision_table, diff_tables
+    kb, kt = kinds[0]
+    var = place_key(kt['dest'])
+
+    def classify(w, blk, env, refs, phase):
+        if phase == 'exit':
+            v = env.get((0, ()))
+            return 'unknown' if v is None else ('retry' if v else 'final')
+        return None
+
+    rows, _c = decision_table(S, var, {'k': 'int', 'bits': 8, 'signed': False}, kt['ret'], classify, pin=True,
+                              extra_consts=(want, ), facts=facts)
+    want_tbl = []
+    if want > 0:
+        want_tbl.append((0, want - 1, frozenset(['final'])))
+    want_tbl.append((want, want, frozenset(['retry'])))
+    want_tbl.append((want + 1, 255, frozenset(['final'])))
+    df = diff_tables(rows, want_tbl)
+    undecided = [x for x in df if x[2] is None or 'unknown' in x[2]]
+    bad = [x for x in df if x not in undecided]
+    rep.oblige('R9.9', S.name, ok=not bad, nontrivial=True,
+               sample={'fn': S.name, 'interrupted_discriminant': want, 'table': [(a, b, sorted(o)) for a, b, o in rows][:6]})
+    if undecided and not bad:
+        rep.notes.append('R9.9: std::io::Error::is_interrupted could not be evaluated for kinds %s' % [(a, b) for a, b, _, _ in undecided][:3])
+    if bad:
+        rep.violation('R9.9', vkey('R9.9', S.name, 'kinds', ''), S.loc(S.span),
+                      'std::io::Error::is_interrupted is not "kind == Interrupted": error kinds with discriminant %s are treated '
+                      'as %s (a storage error of such a kind is retried instead of being returned as Error::Io, or a genuine '
+                      'interruption is no longer retried)' % (
+                          ', '.join('%d..%d' % (a, b) for a, b, _, _ in bad[:4]), '/'.join(sorted(bad[0][2]))))
